@@ -1711,6 +1711,39 @@ def check_messages(rep, g):
     # the accepting path of try_new gives, per validator, the enforced relation and bound
     ctor = g.ctor()
     oks = [o for o in g.paths(ctor) if o.kind == 'return' and is_ok(o.ret)] if ctor else []
+    if len(oks) > 1:
+        # several accepting paths (a validator that branches): every one of them has to enforce what the message of each bound
+        # variant states - a test of the declared quantity against the declared bound with (at least) the declared relation.
+        # Lemma used for strings: byte length <= B implies char count <= B (never the other direction).
+        decided = False
+        for i, v in enumerate(d['validators']):
+            k = v['kind']
+            if k not in SIGMA_ACCEPT:
+                continue
+            want_measure = 'charcount' if k.startswith('len_char') else 'value'
+            upper = k in ('less', 'less_or_equal', 'len_char_max')
+            for o in oks:
+                try:
+                    Fp = o.ret[4][0][4][0]
+                except (IndexError, TypeError):
+                    continue
+                enforced = False
+                for (c, val) in o.conds:
+                    chk = norm_check(ex, c, val, Fp)
+                    if chk.get('kind') != 'cmp' or bound_matches(ex, chk, v, d) is not True:
+                        continue
+                    acc = set(chk['accept']) - {'Un'}
+                    if not acc or not acc <= SIGMA_ACCEPT[k]:
+                        continue
+                    if chk['measure'] == want_measure or (upper and want_measure == 'charcount' and chk['measure'] == 'bytelen'):
+                        enforced = True
+                decided = True
+                rep.ob('R-MSG', enforced, g,
+                       f'message of {VARIANT[k]}: every accepting path of try_new enforces the stated constraint on the {"character count" if want_measure == "charcount" else "value"}',
+                       {'path': [(show(c)[:140], str(val)) for c, val in o.conds][:6]})
+        if not decided:
+            rep.ob('R-MSG', None, g, 'cannot relate messages to checks: try_new has no unique accepting path', {})
+        return
     if len(oks) != 1:
         rep.ob('R-MSG', None, g, 'cannot relate messages to checks: try_new has no unique accepting path', {})
         return
